@@ -42,7 +42,7 @@ type propCfg struct {
 }
 
 func cfgFor(id string) propCfg {
-	c := propCfg{Shards: 12, QuickCap: 8 * time.Minute, ThoroughCap: 45 * time.Minute, MemKB: 12 << 20}
+	c := propCfg{Shards: 12, QuickCap: 15 * time.Minute, ThoroughCap: 60 * time.Minute, MemKB: 12 << 20}
 	switch id {
 	case "C07":
 		c.Fuzz = []fuzzTarget{{"FuzzExecute", 4 * time.Minute}}
